@@ -94,9 +94,12 @@ Print Assumptions C05_dial_address_refusals.
 
 (* ... and a refused address changes nothing and calls nothing: no stuck peer *)
 Theorem C05_refused_address_unchanged :
-  forall L m a code, limit_reached (max_out L) (outs m) = false ->
-  dial_shape LISTEN a = SvRefuse code -> do_dial_shape L m a = (m, [Ret code]).
-Proof. intros L m a code Hl Hs. unfold do_dial_shape. now rewrite Hl, Hs. Qed.
+  forall L m a, (forall p, dial_shape LISTEN a <> SvTcp p) ->
+  exists code, do_dial_shape L m a = (m, [Ret code]).
+Proof.
+  intros L m a H. unfold do_dial_shape. destruct (limit_reached _ _); [eexists; reflexivity|].
+  destruct (dial_shape LISTEN a) as [code|p|p]; [eexists; reflexivity | exfalso; eapply H; reflexivity | eexists; reflexivity].
+Qed.
 Print Assumptions C05_refused_address_unchanged.
 
 (* the check before the `fix:` commit accepted an address for one peer that the TCP transport
